@@ -15,4 +15,7 @@ CONSTANTS
   MaskSasl = TRUE
   MaskOnReloadFail = TRUE
   NoDecodeEcho = TRUE
+  Spellings = {"canon"}
+  MaskDecoded = TRUE
+  ReadFailIsError = TRUE
   SaslUserIsSecret = TRUE
